@@ -90,25 +90,29 @@ def gcirc(ra1, dec1, ra2, dec2, units=2):
     separations.  See:
     https://en.wikipedia.org/wiki/Great-circle_distance
     """
+    #
+    # The differences are taken in the input units, where the difference of
+    # two nearby values is exact, and only then converted to radians.
+    # Subtracting the already rounded radian values limits the accuracy
+    # of sub-milliarcsecond separations.
+    #
     if units == 0:
-        rarad1 = ra1
         dcrad1 = dec1
-        rarad2 = ra2
         dcrad2 = dec2
+        deldec2 = (dec2-dec1)/2.0
+        delra2 = (ra2-ra1)/2.0
     elif units == 1:
-        rarad1 = np.deg2rad(15.0*ra1)
         dcrad1 = np.deg2rad(dec1)
-        rarad2 = np.deg2rad(15.0*ra2)
         dcrad2 = np.deg2rad(dec2)
+        deldec2 = np.deg2rad(dec2-dec1)/2.0
+        delra2 = np.deg2rad(15.0*(ra2-ra1))/2.0
     elif units == 2:
-        rarad1 = np.deg2rad(ra1)
         dcrad1 = np.deg2rad(dec1)
-        rarad2 = np.deg2rad(ra2)
         dcrad2 = np.deg2rad(dec2)
+        deldec2 = np.deg2rad(dec2-dec1)/2.0
+        delra2 = np.deg2rad(ra2-ra1)/2.0
     else:
         raise ValueError('units must be 0, 1 or 2!')
-    deldec2 = (dcrad2-dcrad1)/2.0
-    delra2 = (rarad2-rarad1)/2.0
     sindis = np.sqrt(np.sin(deldec2)*np.sin(deldec2) +
                      np.cos(dcrad1)*np.cos(dcrad2)*np.sin(delra2)*np.sin(delra2))
     dis = 2.0*np.arcsin(sindis)
